@@ -54,8 +54,10 @@ fn main() {
         "C03" => props::c03::run(&ctx),
         "C04" => props::c04::run(&ctx),
         "C05" => props::c05::run(&ctx),
+        "C06" => props::c06::run(&ctx),
         "C07" => props::c07::run(&ctx),
         "C08" => props::c08::run(&ctx),
+        "C09" => props::c09::run(&ctx),
         "C10" => props::c10::run(&ctx),
         "C11" => props::c11::run(&ctx),
         "C14" => props::c14::run(&ctx),
